@@ -517,6 +517,16 @@ impl Ctrl {
             && !g.actors.iter().any(|a| a.st == ASt::AtPoint)
     }
 
+    /// after an execution: runtime threads that were released from a point when the gating ended get time to
+    /// finish that step, so that it does not fall into the next execution
+    pub fn wait_passive_idle(&self, max_ms: u64) {
+        let g = self.lock();
+        let _ = self
+            .cv
+            .wait_timeout_while(g, Duration::from_millis(max_ms), |x| x.actors.iter().any(|a| a.passive_busy))
+            .unwrap_or_else(|p| p.into_inner());
+    }
+
     pub fn ext_pending(&self, delta: isize) {
         let mut g = self.lock();
         g.ext_pending = (g.ext_pending as isize + delta).max(0) as usize;
